@@ -16,6 +16,37 @@ CHECKS = {
         note='Trusted base: rtverif/ref_discrete.py (README semantics, validated against the suite literals), the '
              'printer/generator in rtverif/lang.py, Python float arithmetic on dyadic data.',
         ref='DESIGN.md §7 C01'),
+    'C02': dict(
+        technique='metamorphic monitor: online update() stream vs a second execution of the real offline monitor '
+                  '(whole trace and sampled prefixes), reference model for attribution and NaN taint',
+        text='Exploration: generated past-time formulas (35% with duplicated sub-formula text) x traces; every '
+             'update() value compared with offline evaluate(). Held = no disagreement on the executions produced.',
+        note='Trusted base: the real offline monitor as comparator (itself checked by C01), rtverif/ref_discrete.py '
+             'for NaN do-not-care positions.',
+        ref='DESIGN.md §7 C02'),
+    'C03': dict(
+        technique='reference-model + metamorphic monitor: updates of the pastified online monitor vs offline '
+                  'robustness of the original formula on each prefix, delayed by a harness-computed horizon; defect '
+                  'model of the pastifier for attributing the one open finding',
+        text='Exploration: generated bounded-future formulas (h<=12) x traces; every update i>=h compared. '
+             'Violations whose shape and value match the open finding D-past-over-future are reported as '
+             'KNOWN-FINDING; anything else is a VIOLATION.',
+        note='Trusted base: ref_discrete.py, harness horizon computation (lang.horizon), pastmodel.py (only for '
+             'attribution, never to accept a value).',
+        ref='DESIGN.md §7 C03'),
+    'C16': dict(
+        technique='metamorphic monitor: offline evaluate() on a trace and on adversarial extensions of it, compared '
+                  'on the settled region t+h<|w1|',
+        text='Exploration over generated formulas without unbounded future x trace/extension pairs.',
+        note='Trusted base: harness horizon computation; reference semantics only for NaN do-not-care positions.',
+        ref='DESIGN.md §7 C16'),
+    'C18': dict(
+        technique='metamorphic monitor: both sides of each stated law evaluated by the same real monitor on the '
+                  'same trace',
+        text='Exploration over generated operand formulas, bounds and traces for the 8 laws on the monitor kinds '
+             'that support both sides.',
+        note='Trusted base: the law instantiation in props/c18.py; reference semantics only for NaN positions.',
+        ref='DESIGN.md §7 C18'),
 }
 
 NOT_APPLICABLE = {}
